@@ -3,7 +3,7 @@ import itertools
 import os
 import re
 
-from engine import cc, cfg, lib
+from engine import facts, cc, cfg, lib
 from engine.facts import erase, short_loc, CACHE, VERIF
 from engine.lib import A, qe
 
@@ -259,7 +259,7 @@ NEG = [
 
 def c20e(ctx):
     from witness import c19gen
-    gen = os.path.join(CACHE, "gen")
+    gen = facts.gen_dir()
     os.makedirs(gen, exist_ok=True)
     quick = ctx.tier == "quick"
     cfgs = [("clang++", "c++20")] if quick else [("clang++", "c++20"), ("g++", "c++20")]
